@@ -251,6 +251,16 @@ func checkC05(c *hx.Checker) {
 			}
 		}
 	}
+	// larger geometries beyond the exhaustive box
+	for _, lg := range []convCfg{
+		{dt: ref.F32, x: []int{2, 3, 16, 13}, w: []int{4, 3, 5, 3}, bias: true, a: ref.ConvAttrs{Strides: []int{2, 3}, Pads: []int{2, 1, 2, 1}, Dilations: []int{1, 2}}, route: "op"},
+		{dt: ref.F32, x: []int{1, 2, 9, 20}, w: []int{3, 2, 3, 7}, bias: false, a: ref.ConvAttrs{AutoPad: "SAME_LOWER", Strides: []int{2, 2}}, route: "op"},
+		{dt: ref.F32, x: []int{5, 1, 7, 7}, w: []int{6, 1, 3, 3}, bias: true, a: ref.ConvAttrs{AutoPad: "SAME_UPPER"}, route: "op"},
+		{dt: ref.F32, x: []int{3, 4, 31}, w: []int{5, 4, 6}, bias: true, a: ref.ConvAttrs{Strides: []int{3}, Dilations: []int{2}, Pads: []int{4, 5}}, route: "op"},
+	} {
+		lg.extra = []string{"large"}
+		jobs = append(jobs, convJob(lg))
+	}
 	refuse := func(cf convCfg, desc string) {
 		j := convJob(cf)
 		j.dom, j.exp, j.id = hx.DError, nil, j.id+" "+desc
